@@ -36,7 +36,8 @@ RULE = ("structured families first: (1) chains of length 3-4 with every set of s
         "Intervention objects, value marks).  A case is non-trivial when the graph has >=3 nodes and a directed edge and the "
         "argument mentions at least one subscript (for component cases: at least two input sets).")
 ASSUMPTIONS = [
-    "OPEN simplify_prob / simplify_none_zero (all events): FALSE for the code on events with a self-intervened variable Y_y (open findings simplify-reflexive:prob/none: y0 and the pinned test test_simplify_y read Y_y as the variable Y, the paper's Algorithm 1 and y0's ID* remove the tautology Y_y = y); proved as simplify_prob_partial / simplify_none_zero_partial for every event without a self-intervened variable whose values are values of the variable they are bound to, all compatible functional SCMs, all readings of the value symbols",
+    "OPEN simplify_prob / simplify_none_zero (all events): FALSE for the code on events with a self-intervened variable Y_y (open findings simplify-reflexive:prob/none: y0 and the pinned test test_simplify_y read Y_y as the variable Y, the paper's Algorithm 1 and y0's ID* remove the tautology Y_y = y); proved as simplify_prob_partial / simplify_none_zero_partial for every event without a self-intervened variable whose values are values of the variable they are bound to, all compatible functional SCMs, all distinct readings of the value symbols",
+    "simplify_prob_y0reading / simplify_none_zero_y0reading: for ALL events (self-intervened variables included; one subscript per name, values name their variable) SIMPLIFY is exactly right RELATIVE TO y0's reading y0Read of Spec/CtfSem.lean ('Y_{..y..} = y' is the event 'Y = y', 'Y_{..y..} = y'' is impossible); this does not close the finding - the reading itself contradicts the paper - it shows the reading is the whole deviation; the harness' finding key uses the same rewrite (_explained_by_reflexive_rewrite)",
     "OPEN factorisation_den (the factorised sum-product equals P(query), ALL queries): FALSE for the code on three syntactic classes of queries (open findings factorisation-value:multi-world / literal-bound / outcome-parent-value). PROVED as factorisation_den_partial for every query OUTSIDE the three classes (decidable predicates multiWorld / literalBound / outcomeParentValue of Model/CtfFactor.lean, cross-checked against the Python key functions on every run by the op factorize_classes) that is readable (no self-intervened variable, one value per subscript name), every compatible functional SCM whose pmfs sum to one and whose mechanisms take values below card, every reading of the value symbols; the counterfactual split lemma (independent noise blocks), marginalisation and composition are mechanised, not assumed",
     "value symbols: '-N' and '+N' are read as two values of N (SIMPLIFY theorems: for every DISTINCT reading; value theorem of the factorisation: for every reading; oracle: sampled distinct readings); an event value None means 'no constraint'",
     "Def. 2.1 is read without the '\\ X' for the variable itself (the text says An(Y_x) 'includes Y itself'); for Y not in X both readings coincide",
@@ -1198,7 +1199,7 @@ def finding_key(case, res):
 
 
 MANIFEST = {
-    "text": ("Partial proof. 38 Lean theorems about executable models of ancestor_utils.py / api.py, tied to the code on every run "
+    "text": ("Partial proof. 47 Lean theorems about executable models of ancestor_utils.py / api.py, tied to the code on every run "
              "by differential correspondence (0 disagreements): minimisation is total on graph variables (F8a fixed), well formed, "
              "equal to the published ||Y_x||, idempotent, and the SAME RANDOM VARIABLE in every compatible functional SCM, for "
              "every reading of the value symbols, at every noise point (minimize_same_rv); counterfactual ancestors are exactly "
@@ -1215,7 +1216,9 @@ MANIFEST = {
              "for probability 0: proved for all events WITHOUT a self-intervened variable (simplify_prob_partial, "
              "simplify_none_zero_partial); the full statement is false for the code (SIMPLIFY reads the tautology Y_y=y as Y=y; "
              "the paper removes it) - open finding, pinned by the test-suite, keyed by syntactic cause + outcome kind + exact "
-             "explanation by the rewrite, so that any other failure on such events is a violation."),
+             "explanation by the rewrite, so that any other failure on such events is a violation; and relative to that "
+             "reading SIMPLIFY is proved right on ALL events (simplify_prob_y0reading, simplify_none_zero_y0reading), i.e. "
+             "the reading is the whole deviation."),
     "note": ("Trusted: Lean kernel; axioms propext/Classical.choice/Quot.sound; the hand-written models; the specifications "
              "Spec/CtfSpec.lean, Spec/CtfSem.lean (what an event and the returned sum-product denote) and Spec/Fscm.lean "
              "(functional SCMs with shared noise, owned by the cf family); the correspondence is differential sampling (about "
